@@ -49,6 +49,17 @@ class K(Val):
         return "K(%r)" % (self.v,)
 
 
+class ListV(Val):
+    """a slice of non-byte elements: a fixed list of cells (element identity is the cell)"""
+    __slots__ = ("cells",)
+
+    def __init__(self, cells):
+        self.cells = list(cells)
+
+    def __repr__(self):
+        return "[%s]" % ", ".join(c.tag for c in self.cells)
+
+
 class BytesV(Val):
     __slots__ = ("b",)
 
@@ -282,6 +293,8 @@ def snapshot(v, depth=0):
         return ("K", v.v)
     if isinstance(v, BytesV):
         return ("bytes", v.b)
+    if isinstance(v, ListV):
+        return ("list", tuple(c.tag for c in v.cells))
     if isinstance(v, EnumV):
         if v.name is None:
             return ("enum?", v.adt, tuple(sorted(v.excluded)))
@@ -1180,9 +1193,9 @@ def m_is_none2(eng, st, fr, t, name, rname, args):
 
 def m_map_or(eng, st, fr, t, name, rname, args):
     v = eng.resolve(st, args[0])
-    if isinstance(v, EnumV) and v.name == "None":
+    if isinstance(v, EnumV) and v.name in ("None", "Err"):
         return args[1]
-    if isinstance(v, EnumV) and v.name == "Some":
+    if isinstance(v, EnumV) and v.name in ("Some", "Ok"):
         return eng.call_closure(st, fr, args[2], [v.fields.get(0, TOP)], t)
     return NotImplemented
 
@@ -1229,6 +1242,118 @@ def m_res_or_else(eng, st, fr, t, name, rname, args):
         return v
     if isinstance(v, EnumV) and v.name == "Err":
         return eng.call_closure(st, fr, args[1], [v.fields.get(0, TOP)], t)
+    return NotImplemented
+
+
+def m_opt_transpose(eng, st, fr, t, name, rname, args):
+    v = eng.resolve(st, args[0])
+    if isinstance(v, EnumV) and v.name == "None":
+        return mk_ok(mk_option(None))
+    if isinstance(v, EnumV) and v.name == "Some":
+        inner = eng.resolve(st, v.fields.get(0, TOP))
+        if isinstance(inner, EnumV) and inner.name == "Ok":
+            return mk_ok(mk_option(inner.fields.get(0, TOP)))
+        if isinstance(inner, EnumV) and inner.name == "Err":
+            return mk_err(inner.fields.get(0, TOP))
+        out = []
+        for s2, ev in split_result(eng, st, fr, t, inner):
+            out.append((s2, mk_ok(mk_option(ev.fields.get(0, TOP))) if ev.name == "Ok" else mk_err(ev.fields.get(0, TOP))))
+        return out
+    return NotImplemented
+
+
+def m_res_transpose(eng, st, fr, t, name, rname, args):
+    v = eng.resolve(st, args[0])
+    if isinstance(v, EnumV) and v.name == "Err":
+        return mk_option(mk_err(v.fields.get(0, TOP)))
+    if isinstance(v, EnumV) and v.name == "Ok":
+        inner = eng.resolve(st, v.fields.get(0, TOP))
+        if isinstance(inner, EnumV) and inner.name == "Some":
+            return mk_option(mk_ok(inner.fields.get(0, TOP)))
+        if isinstance(inner, EnumV) and inner.name == "None":
+            return mk_option(None)
+        out = []
+        for s2, ev in split_option(eng, st, fr, t, inner):
+            out.append((s2, mk_option(mk_ok(ev.fields.get(0, TOP))) if ev.name == "Some" else mk_option(None)))
+        return out
+    return NotImplemented
+
+
+def m_opt_and_then(eng, st, fr, t, name, rname, args):
+    v = eng.resolve(st, args[0])
+    if isinstance(v, EnumV) and v.name == "None":
+        return mk_option(None)
+    if isinstance(v, EnumV) and v.name == "Some":
+        return eng.call_closure(st, fr, args[1], [v.fields.get(0, TOP)], t)
+    return NotImplemented
+
+
+def m_opt_or_else(eng, st, fr, t, name, rname, args):
+    v = eng.resolve(st, args[0])
+    if isinstance(v, EnumV) and v.name == "Some":
+        return v
+    if isinstance(v, EnumV) and v.name == "None":
+        return eng.call_closure(st, fr, args[1], [], t)
+    return NotImplemented
+
+
+def m_opt_or(eng, st, fr, t, name, rname, args):
+    v = eng.resolve(st, args[0])
+    if isinstance(v, EnumV) and v.name == "Some":
+        return v
+    if isinstance(v, EnumV) and v.name == "None":
+        return args[1]
+    return NotImplemented
+
+
+def m_res_ok(eng, st, fr, t, name, rname, args):
+    v = eng.resolve(st, args[0])
+    if isinstance(v, EnumV) and v.name == "Ok":
+        return mk_option(v.fields.get(0, TOP))
+    if isinstance(v, EnumV) and v.name == "Err":
+        return mk_option(None)
+    return NotImplemented
+
+
+def m_res_err(eng, st, fr, t, name, rname, args):
+    v = eng.resolve(st, args[0])
+    if isinstance(v, EnumV) and v.name == "Err":
+        return mk_option(v.fields.get(0, TOP))
+    if isinstance(v, EnumV) and v.name == "Ok":
+        return mk_option(None)
+    return NotImplemented
+
+
+def m_is_and(eng, st, fr, t, name, rname, args):
+    v = eng.resolve(st, args[0])
+    want = "Some" if "option" in name else "Ok"
+    if isinstance(v, EnumV) and v.name == want:
+        return eng.call_closure(st, fr, args[1], [v.fields.get(0, TOP)], t)
+    if isinstance(v, EnumV) and v.name is not None:
+        return K(False)
+    return NotImplemented
+
+
+def m_map_or_else(eng, st, fr, t, name, rname, args):
+    v = eng.resolve(st, args[0])
+    if isinstance(v, EnumV) and v.name in ("Some", "Ok"):
+        return eng.call_closure(st, fr, args[2], [v.fields.get(0, TOP)], t)
+    if isinstance(v, EnumV) and v.name == "None":
+        return eng.call_closure(st, fr, args[1], [], t)
+    if isinstance(v, EnumV) and v.name == "Err":
+        return eng.call_closure(st, fr, args[1], [v.fields.get(0, TOP)], t)
+    return NotImplemented
+
+
+def m_opt_copied(eng, st, fr, t, name, rname, args):
+    v = eng.resolve(st, args[0])
+    if isinstance(v, EnumV) and v.name == "None":
+        return v
+    if isinstance(v, EnumV) and v.name == "Some":
+        x = eng.resolve(st, v.fields.get(0, TOP))
+        if isinstance(x, RefV):
+            x = eng.resolve(st, load(Loc(x.cell, x.path)))
+        return mk_option(x)
     return NotImplemented
 
 
@@ -1321,6 +1446,20 @@ DEFAULT_MODELS = {
     "core::result::Result::map_err": lift(None, m_res_map_err, "result"),
     "core::result::Result::and_then": lift(None, m_res_and_then, "result"),
     "core::result::Result::or_else": lift(None, m_res_or_else, "result"),
+    "core::option::Option::transpose": lift(None, m_opt_transpose, "option"),
+    "core::result::Result::transpose": lift(None, m_res_transpose, "result"),
+    "core::option::Option::and_then": lift(None, m_opt_and_then, "option"),
+    "core::option::Option::or_else": lift(None, m_opt_or_else, "option"),
+    "core::option::Option::or": lift(None, m_opt_or, "option"),
+    "core::result::Result::ok": lift(None, m_res_ok, "result"),
+    "core::result::Result::err": lift(None, m_res_err, "result"),
+    "core::option::Option::is_some_and": lift(None, m_is_and, "option"),
+    "core::result::Result::is_ok_and": lift(None, m_is_and, "result"),
+    "core::option::Option::map_or_else": lift(None, m_map_or_else, "option"),
+    "core::result::Result::map_or_else": lift(None, m_map_or_else, "result"),
+    "core::result::Result::map_or": lift(None, m_map_or, "result"),
+    "core::option::Option::copied": lift(None, m_opt_copied, "option"),
+    "core::option::Option::cloned": lift(None, m_opt_copied, "option"),
     "core::option::Option::ok_or": lift(None, m_ok_or, "option"),
     "core::option::Option::ok_or_else": lift(None, m_ok_or_else, "option"),
     "core::option::Option::unwrap_or": lift(None, m_unwrap_or, "option"),
